@@ -26,6 +26,7 @@ func runC07(c *core.Check) {
 	c.Assumes = []string{"diagnostics are compared by severity, summary, detail and subject with the scope-dependent 'Did you mean' hint removed"}
 	streamTLC(c, core.TLCRun{Module: "MC_E1", Parts: 4, Consts: e1Consts(c), Timeout: minutes(25), KeepVars: []string{"e", "fv", "last"}},
 		func(st core.State) { c07.Handle(c, st) })
+	deepE1(c, true, func(st core.State) { c07.Handle(c, st) })
 	// bodies under hcldec specs and bodies with dynamic blocks: hcldec.Variables, dynblock.VariablesHCLDec,
 	// dynblock.ExpandVariablesHCLDec (MC_C18 bodies; only the variable relation of the C18 replayer)
 	dynConsts := map[string]string{"MaxItems": "1", "NestMode": "\"nested\""}
